@@ -70,6 +70,7 @@ let runners : (string * (z list -> z list)) list = [
   "buf", run_buf;
   "fnode", run_fnode;
   "mon", run_mon;
+  "mon1", run_mon1;
   "deque", run_deque;
   "exc", run_exc;
   "suspend", run_suspend;
